@@ -166,6 +166,12 @@ func marshal(m *Message, field reflect.Value, fieldAVP *dict.AVP) (error, []*AVP
 	}
 
 BASIC_TYPE:
+	if fieldType == reflect.TypeOf(AVP{}) {
+		// An AVP (or, through the pointer case above, *AVP) field holds a
+		// ready-made AVP: pass a copy through as it is.
+		a := field.Interface().(AVP)
+		return nil, append(avps, &a)
+	}
 	switch fieldAVP.Data.Type {
 	case datatype.AddressType:
 		t = reflect.TypeOf((*datatype.Address)(nil)).Elem() // get Type of datatype.Address
